@@ -222,8 +222,10 @@ desired rule name.
 
 import collections.abc
 import copy
+import functools
 import logging
 import os
+import threading
 import typing as ty
 import warnings
 
@@ -506,6 +508,15 @@ class Rules(dict):
         return jsonutils.dumps(out_rules, indent=4)
 
 
+def _synchronized(method):
+    """Run an Enforcer method while holding the enforcer's lock."""
+    @functools.wraps(method)
+    def wrapper(self, *args, **kwargs):
+        with self._lock:
+            return method(self, *args, **kwargs)
+    return wrapper
+
+
 class Enforcer:
     """Responsible for loading and enforcing rules.
 
@@ -530,6 +541,12 @@ class Enforcer:
     ):
         self.conf = conf
         opts._register(conf)
+
+        # Reloading rebuilds self.rules and self.file_rules in place and in
+        # several steps. The lock keeps a decision taken by another thread
+        # from seeing (or contributing to) a half rebuilt rule set. It is
+        # re-entrant because checks may call back into the enforcer.
+        self._lock = threading.RLock()
 
         self.default_rule = (default_rule or
                              self.conf.oslo_policy.policy_default_rule)
@@ -596,6 +613,7 @@ class Enforcer:
         self.suppress_default_change_warnings = False
         self.suppress_deprecation_warnings = False
 
+    @_synchronized
     def load_rules(self, force_reload=False):
         """Loads policy_path's rules.
 
@@ -969,6 +987,7 @@ class Enforcer:
 
         raise cfg.ConfigFilesNotFoundError((path,))
 
+    @_synchronized
     def enforce(
         self, rule, target, creds, do_raise=False, exc=None, *args, **kwargs,
     ):
